@@ -899,6 +899,41 @@ pub fn history(mode: &str, idx: u64, rng: &mut Rng, thorough: bool, timeout_ms: 
         }
         // small scope: at most ~6 vertices on a 3x3 grid or a line, insert/remove heavy, every
         // query class after every step: the empty / single / collinear / two-dimensional transitions
+        // four points in convex position (small lattice, shared coordinates likely), inserted in a
+        // random order, sometimes followed by a fifth point and a removal: the diagonal must be
+        // the Delaunay one
+        "quad" => {
+            let (scalar, kind, hint) = instance(rng, &["dt", "dt", "cdt"], true, &ALL_HINTS);
+            let fam = Fam { name: s("grid"), n: 6, centers: Vec::new(), k: 0 };
+            let mut ctx = Ctx::new(&scalar, &kind, &hint, timeout_ms);
+            ctx.header(idx, &scalar, &hint, mode, &fam.label());
+            let or = |a: (i64, i64), b: (i64, i64), c: (i64, i64)| (b.0 - a.0) * (c.1 - a.1) - (b.1 - a.1) * (c.0 - a.0);
+            let mut pts: Vec<(i64, i64)> = Vec::new();
+            for _ in 0..200 {
+                let cand: Vec<(i64, i64)> = (0..4).map(|_| (rng.range(0, 7), rng.range(0, 7))).collect();
+                // convex position: some cyclic order of the four points turns strictly left everywhere
+                let perms = [[0, 1, 2, 3], [0, 1, 3, 2], [0, 2, 1, 3], [0, 2, 3, 1], [0, 3, 1, 2], [0, 3, 2, 1]];
+                let ok = perms.iter().any(|p| {
+                    (0..4).all(|i| or(cand[p[i]], cand[p[(i + 1) % 4]], cand[p[(i + 2) % 4]]) > 0)
+                });
+                if ok {
+                    pts = cand;
+                    break;
+                }
+            }
+            let scale = *rng.pick(&[1.0, 1.0, 0.5, 3.0, 1024.0]);
+            for (i, p) in pts.iter().enumerate() {
+                ctx.op(ins_op(&ctx, (p.0 as f64 * scale, p.1 as f64 * scale), i as u64 + 1));
+            }
+            if rng.chance(300) && !ctx.dead {
+                let p = (rng.range(0, 7) as f64 * scale, rng.range(0, 7) as f64 * scale);
+                ctx.op(ins_op(&ctx, p, 9));
+                if rng.chance(500) && ctx.tri.nv() == 5 {
+                    ctx.op(vec![s("rm"), s("4")]);
+                }
+            }
+            ctx.finish();
+        }
         "small" => {
             let (scalar, kind, hint) = instance(rng, &["dt", "dt", "cdt"], true, &ALL_HINTS);
             let fam = Fam::choose(rng, &["grid", "line", "line"]);
